@@ -29,14 +29,14 @@ fn if1(c: E, a: Blk) -> E { E::If(Box::new(c), a, None) }
 fn whl(c: E, b: Blk) -> E { E::While(Box::new(c), b) }
 fn call(g: &str, args: Vec<E>, ty: STy) -> E { E::Call(g.into(), args, ty) }
 fn func(name: &str, params: &[(&str, STy)], ret: STy, body: Blk) -> Func {
-    Func { name: name.into(), params: params.iter().map(|(x, t)| (x.to_string(), *t)).collect(), ret, body }
+    Func { name: name.into(), xparams: vec![], params: params.iter().map(|(x, t)| (x.to_string(), *t)).collect(), ret, xret: None, body }
 }
 fn main2(ty: STy, ret: STy, body: Blk) -> Func { func("main", &[("x0", ty), ("x1", ty)], ret, body) }
 
 /// (name, program, argument type of main, return type, compare the MIR too)
 pub fn corpus() -> Vec<(&'static str, Prog, STy, STy, bool)> {
     let mut out: Vec<(&'static str, Prog, STy, STy, bool)> = vec![];
-    let mut add = |name: &'static str, fns: Vec<Func>, ty: STy, ret: STy, ir: bool| out.push((name, Prog { fns }, ty, ret, ir));
+    let mut add = |name: &'static str, fns: Vec<Func>, ty: STy, ret: STy, ir: bool| out.push((name, Prog { enums: vec![], fns }, ty, ret, ir));
 
     add("literal-variable-negate", vec![main2(I, I, blk(vec![], Some(bin(Op::Add, neg(v("x0")), bin(Op::Sub, n(3), neg(ns(7)))))))], I, I, true);
     add("add-sub-mul-wrap", vec![main2(I, I, blk(vec![], Some(bin(Op::Sub, bin(Op::Mul, v("x0"), v("x1")), bin(Op::Add, v("x0"), n(2147483647))))))], I, I, true);
